@@ -143,6 +143,8 @@ class EBB3:
         if len(ebb_version_string) > 1:
             ebb_version_string = ebb_version_string[1]
         else:
+            self.version = None         # Forget any version left over from an earlier connection
+            self.version_parsed = None
             return # ebb_version_string is not a reasonable version number.
 
         ebb_version_string = ebb_version_string.strip()  # Stripped copy, for number comparisons
@@ -280,6 +282,8 @@ class EBB3:
             parsed_version_string = parse(version_string)
         except InvalidVersion:
             return None
+        if self.version_parsed is None:
+            return False    # Firmware version unknown; cannot confirm that it is new enough.
         if self.version_parsed >= parsed_version_string:
             return True
         return False
